@@ -292,6 +292,15 @@ func TestC16(t *testing.T) {
 				return
 			}
 			e.topY = e.a2.Height()
+			// the branches may coincide for their first momentums (same slot, same content): the
+			// real fork point is where the hashes part
+			for e.forkAt < e.topX && e.forkAt < e.topY && sameAt(h.A, e.a2, e.forkAt+1) {
+				e.forkAt++
+			}
+			lenX = int(e.topX - e.forkAt)
+			if e.forkAt == e.topY {
+				lenX = 0 // Y is a prefix of the follower's chain: nothing to deliver as a fork
+			}
 		}
 		c.Note("prefix to %d, follower at %d (own branch of %d), producer at %d, competing branch to %d", e.forkAt, e.topX, lenX, e.topA, e.topY)
 		c.Class("fork-depth-" + bucket16(lenX))
@@ -348,6 +357,12 @@ func TestC16(t *testing.T) {
 			c.NonTrivial()
 		}
 	})
+}
+
+func sameAt(a, b *sim.Node, h uint64) bool {
+	x, _ := a.Chain.GetFrontierMomentumStore().GetMomentumByHeight(h)
+	y, _ := b.Chain.GetFrontierMomentumStore().GetMomentumByHeight(h)
+	return x != nil && y != nil && x.Hash == y.Hash
 }
 
 func bucket16(n int) string {
